@@ -56,7 +56,7 @@ NodeInit(e) ==
      lk |-> <<>>, pendSearch |-> <<>>, sidAid |-> <<>>, closed |-> <<>>, yields |-> <<>>, started |-> <<>>,
      rounds |-> <<>>, succ |-> <<>>,
      answered |-> FALSE, waits |-> <<>>, qsent |-> 0, started_at |-> now, bootstate |-> "AwaitStart",
-     annClosed |-> <<>>, lastSentTo |-> <<>>, samples |-> <<>>, lastAns |-> <<>>, lastNamed |-> <<>>, qsince |-> <<>>, admitted |-> {}, mechn |-> 0, raid |-> "", cursor |-> -1, bphase |-> [b |-> -1, list |-> <<>>, i |-> 0], bootn |-> 0, battempt |-> 0, bsince |-> 0, binit |-> <<>>, bacc |-> 0]
+     annClosed |-> <<>>, lastSentTo |-> <<>>, samples |-> <<>>, lastAns |-> <<>>, lastNamed |-> <<>>, qsince |-> <<>>, admitted |-> {}, mechn |-> 0, raid |-> "", cursor |-> -1, bphase |-> [b |-> -1, list |-> <<>>, i |-> 0], bootn |-> 0, battempt |-> 0, bsince |-> 0, binit |-> <<>>, bacc |-> 0, bcomp |-> <<>>, bcredit |-> 0]
 
 Init == l = 1 /\ S = <<>> /\ G = [universe |-> <<>>, plan |-> <<>>, coop |-> FALSE, proj |-> FALSE, twins |-> <<>>, responsive |-> <<>>, searching |-> <<>>]
 
@@ -222,15 +222,22 @@ CountIn(seq, lo, hi) == Cardinality({i \in 1..Len(seq) : seq[i] > lo /\ seq[i] <
 RefreshRoundStep(e) ==
     LET nd == Nd(e)
         rounds == Append(nd.rounds, now)
-        ok(W) == CountIn(rounds, now - W, now) <= (W \div 6000) + 1 + CountIn(nd.succ, now - W - 1, now) IN
+        \* a bootstrap completion = the worker reaching Bootstrapped (its BootState line), not the handler's reaction to it
+        ok(W) == CountIn(rounds, now - W, now) <= (W \div 6000) + 1 + CountIn(nd.bcomp, now - W - 1, now)
+        prev == IF Len(nd.rounds) = 0 THEN -1000000 ELSE nd.rounds[Len(nd.rounds)]
+        byBoot == nd.step.open /\ nd.step.kind = "bootstrap" IN
     /\ Chk("C18", "at-most-one-round-per-6s-plus-one-per-bootstrap-completion (30 s window)", l, ok(30000))
     /\ Chk("C18", "at-most-one-round-per-6s-plus-one-per-bootstrap-completion (2 min window)", l, ok(120000))
     /\ Chk("C18", "at-most-one-round-per-6s-plus-one-per-bootstrap-completion (20 min window)", l, ok(1200000))
     /\ Chk("C18", "a-round-is-caused-by-the-refresh-timer-or-a-bootstrap-completion", l,
            nd.step.open /\ (nd.step.kind = "bootstrap" \/ (nd.step.kind = "timer" /\ nd.step.what = "TableRefresh")))
+    \* "at most once per 6-second interval plus once per bootstrap completion", round by round: a round started by the refresh timer
+    \* comes no sooner than 6 s after the previous round; a round started by the bootstrap notification needs a completion of its own
+    /\ Chk("C18", "a-timer-round-comes-at-least-6s-after-the-previous-round", l, byBoot \/ now - prev >= 6000 - SLACK)
+    /\ Chk("C18", "a-bootstrap-round-has-a-bootstrap-completion-of-its-own", l, byBoot => nd.bcredit > 0)
     \* the mechanism: the cursor walks 0, 1, ..., 159, 0, ... one bucket per round
     /\ MDrift("refresh-cursor-advances-by-one", l, e.cursor = (nd.cursor + 1) % 160)
-    /\ Upd(e, [nd EXCEPT !.rounds = rounds, !.cursor = e.cursor,
+    /\ Upd(e, [nd EXCEPT !.rounds = rounds, !.cursor = e.cursor, !.bcredit = IF byBoot THEN 0 ELSE @,
                          !.step = IF nd.step.open THEN nd.step @@ [cursor |-> e.cursor] ELSE nd.step]) /\ UNCHANGED G
 
 \* ------------------------------------------------------------------ C15: bootstrap and its waiters
@@ -580,10 +587,14 @@ MechAids(nd, st) ==
          \cup (IF st.kind = "incoming" /\ st.m.y = "r" /\ Has(st.m, "pfx") THEN {st.m.pfx} \cap DOMAIN nd.lk ELSE {})
          \cup (IF st.kind = "timer" /\ st.tid # "" /\ Len(st.tid) >= 10 THEN {SubSeq(st.tid, 1, 10)} \cap DOMAIN nd.lk ELSE {})
 
+\* a contact counts as admitted from the first table dump that shows it live (not only from the first 5 s sample)
+LiveAddrs(tt) == {SlotC(tt, p).addr : p \in RLiveSlots(tt, now)}
 TableChecks(nd, tt, ln) ==
     /\ Chk("C11", "a-contact-that-always-answers-is-never-lost (every table dump)", ln, NeverLost(Rec[ln].node, nd, tt))
     /\ Chk("C08", "table-shape", ln, ShapeOK([tt EXCEPT !.self = nd.id], now))
     /\ Chk("C12", "good-only-if-it-answered-or-queried-us", ln, GoodOnlyIfHeard(nd, tt))
+    /\ Chk("C12", "router-addresses-and-the-own-id-are-never-admitted-whoever-names-them", ln,
+           \A p \in RLiveSlots(tt, now) : SlotC(tt, p).addr \notin tt.routers /\ SlotC(tt, p).id # nd.id)
 
 HEndStep(e) ==
     LET nd0 == Nd(e)
@@ -612,6 +623,7 @@ HEndStep(e) ==
     /\ \A a \in MechAids(nd0, st) : MDrift("search-queries-and-announces-as-LookupCore-predicts", l, ~MechNext(nd0, st, pre, a).bad)
     /\ Chk("C14", "node-keeps-running-while-handles-exist", l, e.running \/ ~st.open)
     /\ Upd(e, [nd2 EXCEPT !.t = post, !.step = [open |-> FALSE],
+                         !.admitted = IF Len(e.ch[2]) > 0 THEN @ \cup LiveAddrs(post) ELSE @,
                          !.lk = LET aids == MechAids(nd0, st) IN
                                 [a \in DOMAIN @ |-> IF a \in aids THEN [@[a] EXCEPT !.fresh = FALSE, !.mech = MechNext(nd0, st, pre, a).mech]
                                                    ELSE @[a]],
@@ -640,8 +652,11 @@ WorkerTable(e) ==
             /\ (e.from = "IdleBeforeRebootstrap" => MDrift("bootstrap-back-off", l, now - nd.bsince = BS!Backoff(nd.battempt)))
             /\ (e.from = "Bootstrapped" => MDrift("rebootstrap-decided-at-a-5s-table-check", l, now > nd.bsince /\ (now - nd.bsince) % 5000 = 0)))
     /\ Upd(e, [nd EXCEPT !.t = post, !.bootstate = IF e.ev = "BootState" THEN e.to ELSE @,
+                         !.admitted = IF Len(e.ch[2]) > 0 THEN @ \cup LiveAddrs(post) ELSE @,
                          !.bphase = IF e.ev = "BootState" THEN [b |-> -1, list |-> <<>>, i |-> 0] ELSE @,
                          !.bsince = IF e.ev = "BootState" THEN now ELSE @,
+                         !.bcomp = IF e.ev = "BootState" /\ e.to = "Bootstrapped" THEN Append(@, now) ELSE @,
+                         !.bcredit = IF e.ev = "BootState" /\ e.to = "Bootstrapped" THEN 1 ELSE @,
                          !.binit = IF e.ev = "BootState" THEN <<>> ELSE @,
                          !.bacc = IF e.ev = "BootState" THEN 0 ELSE IF e.ev = "BootMsg" /\ e.accepted THEN @ + 1 ELSE @,
                          !.battempt = IF e.ev # "BootState" THEN @ ELSE IF e.to = "Bootstrapped" THEN 0
